@@ -22,10 +22,11 @@
    counter threaded through the state, IN THE ORDER the implementation draws.  Every LOGGER.critical (the CLI
    stops) and every uncaught exception is `Err _`; LOGGER.error / warn do not stop.
 
-   How a row is READ follows the tree (Gen/Tables.v, behavioural probes of translator/tables_c01.py):
-   drops_padding_edges_everywhere  - FlowParser._parse_next_row drops trivial edges other than the first for every
+   How a row is READ follows the tree (Gen/Tables.v: behavioural probes of translator/tables_flowread.py,
+   tables_c04.py, tables_c01.py; tables_c01.py checks the first two for every row type the model applies them to):
+   padding_edges_dropped_at_read   - FlowParser._parse_next_row drops trivial edges other than the first for every
                                      row type (before the repair a05766f only rows that create a node omitted them);
-   has_group_by_name_in_rows       - RowNodeGroup.add_exit compiles a has_group condition of a row that is not a
+   has_group_edges_by_name         - RowNodeGroup.add_exit compiles a has_group condition of a row that is not a
                                      split_by_group row with the arguments [None, value] (before f02a865: [value]);
    has_group_by_name_from_noop     - the same for NoOpNodeGroup.add_exit.
    SwitchRouter.record_global_uuids (container validation, after every flow is compiled) reads arguments[1] of every
@@ -62,7 +63,7 @@ Record crow := mkCRow {
 (* FlowParser._parse_next_row: `row.edges = [edge for i, edge in enumerate(row.edges) if edge != Edge() or i == 0]`
    since the repair; the rows as parsed before it *)
 Definition read_edges (es : list redge) : list redge :=
-  if drops_padding_edges_everywhere then drop_padding es else es.
+  if padding_edges_dropped_at_read then drop_padding es else es.
 Definition cread_row (cr : crow) : crow :=
   mkCRow (mkRow (r_type (cr_row cr)) (r_id (cr_row cr)) (r_node_name (cr_row cr)) (read_edges (r_edges (cr_row cr))))
          (cr_kind cr) (cr_uuid cr).
@@ -510,7 +511,7 @@ Definition or_default (s dflt : str) : str := match s with [] => dflt | _ => s e
 (* comparison_arguments of an edge leaving a row that is not a split_by_group row / leaving a no_op decision *)
 Definition by_name_args (flag : bool) (c : econd) : list (option str) :=
   if flag && str_eqb (c_type c) has_group_s then [None; Some (c_value c)] else [Some (c_value c)].
-Definition row_args (c : econd) : list (option str) := by_name_args has_group_by_name_in_rows c.
+Definition row_args (c : econd) : list (option str) := by_name_args has_group_edges_by_name c.
 Definition noop_args (c : econd) : list (option str) := by_name_args has_group_by_name_from_noop c.
 
 (* BaseNode/RouterNode.update_default_exit on the node nd *)
